@@ -15,6 +15,13 @@ def Cmp.eval : Cmp → Nat → Nat → Bool
   | .gt, x, c => decide (x > c)
   | .ge, x, c => decide (x ≥ c)
 
+/-- the comparison that holds for (b, a) exactly when the given one holds for (a, b) -/
+def Cmp.mirror : Cmp → Cmp
+  | .lt => .gt | .le => .ge | .gt => .lt | .ge => .le | c => c
+
+theorem Cmp.mirror_eval (c : Cmp) (a b : Nat) : c.mirror.eval a b = c.eval b a := by
+  cases c <;> simp [Cmp.mirror, Cmp.eval, bne, Bool.beq_comm]
+
 def Cmp.toStr : Cmp → String
   | .eq => "==" | .neq => "!=" | .lt => "<" | .le => "<=" | .gt => ">" | .ge => ">="
 
